@@ -217,15 +217,32 @@ Definition flag (n : Z) (bad : bool) : list Z := if bad then [n] else [].
     6 key equality iff fields agree; 7 ancestors / getter consistency; 8 a degenerate
     digest or instance name was accepted; 9 panic; 10 Build; 11 GetUnion;
     12 GetDifferenceAndIntersection; 13 PartitionByInstanceName; 14 RemoveEmptyBlob;
-    15 First; 16 a valid input was rejected *)
+    15 First; 16 a valid input was rejected; 17 an accepted resource name does not contain
+    the hash and the decimal size of the digest it was parsed to *)
 Definition head_is0 (obs : sx) : bool := match obs with L (A 0 :: _) => true | _ => false end.
 
+(** [s] is a plain decimal numeral (optional sign, at least one digit, digits only) denoting [z] *)
+Definition decimal_of (s : bytes) (z : Z) : bool :=
+  let '(neg, ds) := match s with
+                    | c :: r => if N.eqb c 43 then (false, r) else if N.eqb c dash then (true, r) else (false, s)
+                    | [] => (false, []) end in
+  nonempty ds && forallb is_digit ds
+  && (Z.eqb (if neg then - Z.of_N (horner 0 ds) else Z.of_N (horner 0 ds)) z).
+Fixpoint adjacent_fields (hash : bytes) (size : Z) (fs : list bytes) : bool :=
+  match fs with
+  | h :: ((s :: _) as r) => (beqb h hash && decimal_of s size) || adjacent_fields hash size r
+  | _ => false
+  end.
+
 (** parse cases: obs = (0 dobs comp formatted reparsed) *)
-Definition mon_parse (clause : Z) (obs : sx) : list Z :=
+Definition mon_parse (clause : Z) (path : bytes) (obs : sx) : list Z :=
   flag 9 (has_panic obs) ++
   (if head_is0 obs then
      let d := sx_nth obs 1 in
      flag 8 (negb (dobs_wf d)) ++ flag 7 (dobs_wf d && negb (dobs_consistent d)) ++
+     (* the accepted name really contains "<hash>/<decimal size>" of the digest it was parsed to *)
+     flag 17 (negb (adjacent_fields (sxb (ok_val (sx_nth d 2))) (sx_Z (ok_val (sx_nth d 3)))
+                                    (fields_by_slash path))) ++
      flag clause (negb (sx_eqb (sx_nth obs 4) (L [A 0; L [sx_nth d 0; sx_nth obs 2]])))
    else []).
 
@@ -327,8 +344,8 @@ Definition mon_sets (inp obs : sx) : list Z :=
 
 Definition mon20 (inp obs : sx) : list Z :=
   match sx_Z (sx_nth inp 0) with
-  | 0 => mon_parse 2 obs
-  | 1 => mon_parse 3 obs
+  | 0 => mon_parse 2 (sxb (sx_nth inp 1)) obs
+  | 1 => mon_parse 3 (sxb (sx_nth inp 1)) obs
   | 2 => mon_instance_name (sxb (sx_nth inp 1)) obs
   | 3 => mon_structured inp obs
   | 4 => mon_compact obs
